@@ -737,6 +737,7 @@ int main(int argc, char **argv)
 	GM.lib = argu(argc, argv, "lib", 0);
 	GM.live = argu(argc, argv, "live", 0);
 	GM.nostate = argu(argc, argv, "nostate", 0);
+	GM.stop_at = (mode_par || mode_dist) ? argu(argc, argv, "stopat", 0) : 0;
 	GM.skew = argu(argc, argv, "skew", 0);
 	unsigned threads = argu(argc, argv, "threads", 2);
 	unsigned ckpt = argu(argc, argv, "ckpt", 3);
